@@ -17,6 +17,7 @@
 EXTENDS Integers, FiniteSets, TLC
 CONSTANTS Players, MinP, MaxHands, Levels, MaxRetry,
           Quiet,                 \* TRUE: no external control call at all (liveness runs)
+          WithLeave,             \* TRUE: players may leave between hands (multiplies the state space; own configuration)
           ExtSetUp,              \* TRUE: the competition layer may call SetUpTableGame at any time (safety runs); FALSE: only for the first hand
 
           KF_OpenAfterClose,     \* pinned: tableGameOpen had no closed/released guard
@@ -64,6 +65,12 @@ Rebuy(p) == /\ ~chips[p] /\ chips' = [chips EXCEPT ![p] = TRUE]
             /\ UNCHANGED <<status, gc, hand, gblind, blind, released, gate, opens, cont, inn, dealt, survivors, ext, closedBetween, opened2, retry, win>>
 SitIn(p) == /\ ~inn[p] /\ inn' = [inn EXCEPT ![p] = TRUE]
             /\ UNCHANGED <<status, gc, hand, gblind, blind, released, gate, opens, cont, chips, dealt, survivors, ext, closedBetween, opened2, retry, win>>
+
+(* PlayersLeave takes te.lock (it waits while tableGameOpen holds it); a participant of the running hand is left alone
+   here (that case is the recorded finding KF-midhand-leave) *)
+Leave(p) == /\ retry = 0 /\ ~win.on /\ (chips[p] \/ inn[p]) /\ p \notin dealt
+            /\ chips' = [chips EXCEPT ![p] = FALSE] /\ inn' = [inn EXCEPT ![p] = FALSE]
+            /\ UNCHANGED <<status, gc, hand, gblind, blind, released, gate, opens, cont, dealt, survivors, ext, closedBetween, opened2, retry, win>>
 
 (* ---- the gate (abstract: all signalled, or its 2 s timeout) ------------ *)
 GateFire == /\ gate.armed /\ opens < 2      \* (bound of the model: at most two callbacks in flight)
@@ -132,7 +139,7 @@ ContinueFire ==
 
 Next ==
   \/ gc < MaxHands /\ (ExtSetUp \/ (gc = 0 /\ status = "created" /\ ~gate.armed /\ opens = 0)) /\ \E P \in SUBSET Players : SetUp(P)
-  \/ \E p \in Players : (~Quiet /\ Finish(p)) \/ Rebuy(p) \/ (~Quiet /\ SitIn(p))
+  \/ \E p \in Players : (~Quiet /\ Finish(p)) \/ Rebuy(p) \/ (~Quiet /\ SitIn(p)) \/ (~Quiet /\ WithLeave /\ Leave(p))
   \/ ~Quiet /\ \E l \in Levels : UpdateBlind(l)
   \/ ~Quiet /\ (Pause \/ Close \/ Release)
   \/ GateFire \/ TableGameOpen \/ OpenRetry \/ OpenSwap \/ Publish \/ ContinueFire
@@ -148,8 +155,8 @@ C07_NoOpenOnBreak == [][(gc' # gc) => (blind # -1 /\ blind # 0)]_vars
 C12_GameBlindFixed == [][(hand # "none" /\ hand' # "none" /\ gc' = gc) => gblind' = gblind]_vars
 C12_GameBlindAtOpen == [][(gc' # gc) => gblind' = blind]_vars
 (* C01 (as far as this model sees chips): a stack is only ever emptied by the settlement of a hand; C03/C05: a sit-in is never undone *)
-C01_ChipsOnlyLostAtSettle == [][\A p \in Players : (chips[p] /\ ~chips'[p]) => hand = "live"]_vars
-C03_SitInSticks == [][\A p \in Players : inn[p] => inn'[p]]_vars
+C01_ChipsOnlyLostAtSettle == [][\A p \in Players : (chips[p] /\ ~chips'[p] /\ inn'[p]) => hand = "live"]_vars     \* (inn' false: he left)
+C03_SitInSticks == [][\A p \in Players : (inn[p] /\ chips'[p]) => inn'[p]]_vars
 C08_PauseIff == [][(cont /\ ~cont' /\ ~ext /\ status = "standby") =>
                      ((status' = "pausing") <=> (blind = -1 \/ Cardinality(Alive) < MinP))]_vars
 C08_SetUpEnough == [][(cont /\ ~cont' /\ ~ext /\ status = "standby" /\ status' = "standby" /\ Cardinality(AliveIn) >= 2)
